@@ -359,8 +359,8 @@ theorem safeShape_of_sites (tbl : List AliasRow) (op : OpK) :
       modeOf_copies (k := (fallbackSite k p opts).1) (c := (fallbackSite k p opts).2) h'.1
     simp only [safeShape, hfb, safeOpts_of_sites tbl op k opts h'.2, Bool.and_self]
   | .owned s, h => by
-    simp only [sitesOf] at h
-    simp only [safeShape, safeShape_of_sites tbl op s h]
+    simp only [sitesOf, List.all_cons] at h
+    simp only [safeShape, safeShape_of_sites tbl op s (and_true_split h).2]
 theorem safeOpts_of_sites (tbl : List AliasRow) (op : OpK) (k : Kind) :
     (opts : List Shape) → (sitesOfOpts k opts).all (siteOk tbl op) = true → safeOpts (modeOf tbl op) k opts = true
   | [], _ => by simp [safeOpts]
@@ -789,6 +789,19 @@ theorem firstFit_spec (h : Heap) (i : Item) : ∀ (opts : List Shape),
       · intro s e
         simp only [List.getElem?_cons_succ] at e
         exact ih.2 s e
+
+/-- a fixed delegation hands the value to THAT option if the value fits it, and to no option otherwise (the `misfit`
+    site of that option's category: `fallbackSite`) -/
+theorem fixed_pick_spec (n : Nat) (opts : List Shape) (h : Heap) (i : Item) :
+    (pickIdx (.fixed n) opts h i = n ∧ ∃ s, opts[n]? = some s ∧ fits s h i = true) ∨
+    pickIdx (.fixed n) opts h i = opts.length := by
+  simp only [pickIdx]
+  cases ho : opts[n]? with
+  | none => exact Or.inr rfl
+  | some s =>
+    by_cases hf : fits s h i = true
+    · exact Or.inl ⟨by simp only [if_pos hf], s, rfl, hf⟩
+    · exact Or.inr (by simp only [if_neg hf])
 
 /-- `AnyOf[Array[Integer], Map[String, Array[Integer]], String]` with ALL its options, as the element of an
     Array, as a Map value and on its own, plus `Optional[Map | Array]`: admitted under construction, the Serializer
